@@ -237,12 +237,14 @@ func (e *env) warmMetadata(dbName string, p point) error {
 	if err != nil {
 		return err
 	}
-	if !e.warmed[key] {
-		e.warmed[key] = true
-		for _, k := range sortedKeys(sd.Tags) {
-			if _, err := db.MetaDB().GenTagKeyID(metricID, []byte(k)); err != nil {
-				return err
-			}
+	for _, k := range sortedKeys(sd.Tags) {
+		tk := key + "|tag|" + k
+		if e.warmed[tk] {
+			continue
+		}
+		e.warmed[tk] = true
+		if _, err := db.MetaDB().GenTagKeyID(metricID, []byte(k)); err != nil {
+			return err
 		}
 	}
 	for _, fi := range sd.Fields {
@@ -261,45 +263,36 @@ func (e *env) warmMetadata(dbName string, p point) error {
 	return nil
 }
 
-// verifyNode reads every metric of one node back (single leaf, every field, grouped by every tag
-// key, storage interval) and compares with the rows routed to it.
+// verifyNode reads every metric of one node back (single leaf, every field, storage interval):
+// without grouping and grouped by every tag key set some series of the metric on the node carries,
+// and compares with what the naive model gives for the rows routed to the node.
 func (e *env) verifyNode(l *layoutSpec, ni int) string {
 	d := e.d
 	e.xc.SetLayout(l.db, e.opt, l.layoutMap(ni))
 	e.xc.Compute, e.xc.Order = nil, nil
+	onNode := func(series int) bool { return l.nodeOf[series] == ni }
 	for mi, md := range d.Metrics {
-		want := node.Result{}
-		for _, b := range d.Batches {
-			for _, p := range b {
-				sd := d.Series[p.Series]
-				if sd.Metric != mi || l.nodeOf[p.Series] != ni {
-					continue
-				}
-				key := seriesKey(sd.Tags)
-				for fi, v := range p.Vals {
-					f := md.Fields[fi].Name
-					if want[key] == nil {
-						want[key] = map[string]map[int64]float64{}
-					}
-					if want[key][f] == nil {
-						want[key][f] = map[int64]float64{}
-					}
-					want[key][f][floorDiv(p.ts(), storageIntervalMs)*storageIntervalMs] = v
-				}
+		keySets := map[string][]string{"": nil}
+		for si, sd := range d.Series {
+			if sd.Metric == mi && onNode(si) {
+				ks := sortedKeys(sd.Tags)
+				keySets[strings.Join(ks, ",")] = ks
 			}
 		}
-		sql := fmt.Sprintf("select * from %s where time>='%s' and time<='%s' group by %s", md.Name,
-			fmtTime(baseTime-60_000), fmtTime(baseTime+420_000), strings.Join(md.TagKeys, ","))
-		rs, err := e.xc.Query("root:1", l.db, sql)
-		if err != nil && !strings.Contains(err.Error(), "not found") {
-			return fmt.Sprintf("node %d metric %s: %v", ni, md.Name, err)
-		}
-		got := node.Result{}
-		if err == nil {
-			got = node.Canon(rs)
-		}
-		if !got.Equal(want) {
-			return fmt.Sprintf("node %d metric %s reads back\n%swritten\n%s", ni, md.Name, got, want)
+		for _, name := range sortedKeys(keySets) {
+			q := &querySpec{Metric: mi, All: true, StartS: -60, EndS: 420, GroupBy: keySets[name]}
+			sql := q.sql(d)
+			rs, err := e.xc.Query("root:1", l.db, sql)
+			if err != nil && !strings.Contains(err.Error(), "not found") {
+				return fmt.Sprintf("node %d: %s: %v", ni, sql, err)
+			}
+			got := node.Result{}
+			if err == nil {
+				got = node.Canon(rs)
+			}
+			if msg := checkReference(got, evalModelOn(d, q, onNode)); msg != "" {
+				return fmt.Sprintf("node %d of %s (metric %s): %s\n%s\nanswer:\n%s", ni, l, md.Name, sql, msg, got)
+			}
 		}
 	}
 	return ""
